@@ -611,6 +611,11 @@ def check_c14() -> int:
                         {"1": dict(node, children={"0": "@@"})}]
                 for doc in docs:
                     items.append(("rawjson", json.dumps(doc).replace(marker, nested).encode(), null))
+        # nesting beyond what the JSON parser itself accepts (it gives up with RecursionError): still a read error
+        for depth in (2000, 50000):
+            items.append(("rawjson", ('{"1": ' + "[" * depth + "]" * depth + "}").encode(), null))
+            items.append(("rawjson", ("[" * depth + "]" * depth).encode(), null))
+            items.append(("rawjson", ('{"1": ' + '{"a":' * depth + "1" + "}" * depth + "}").encode(), null))
         for esc in ("\\ud83d", "\\udc00x", "a\\ud83d\\ud83d"):
             for doc in ({"1": dict(node, sketch_name="@@")}, {"1": dict(node, sketch_version="@@")},
                         {"1": dict(node, children={"0": dict(child, description="@@")})},
